@@ -242,6 +242,8 @@ def build_mesh(prog: dict, geo: Geometry):
                 if labels:
                     as_list = len(labels) > 1 or prog.get("corner_lists")
                     loft.project_corner(c, corner_lists.setdefault(tuple(labels), list(labels)) if as_list else labels[0])
+            for c, label in op.get("pproj_more", []):
+                loft.project_corner(int(c), label)
         # (the projections of a vertex are a set: the order of the calls is immaterial)
         for step in ((corner_projections, side_projections) if prog.get("corners_first") else (side_projections, corner_projections)):
             step()
